@@ -158,7 +158,7 @@ func (g *Graph) Events(op string) []*Event {
 	for _, es := range g.Out {
 		for _, e := range es {
 			if e.Ev != nil && (op == "" || e.Ev.Op == op) {
-				k := e.Ev.Site + "|" + e.Ev.String()
+				k := e.Ev.Site + "|" + e.Ev.String() + "|" + kvString(e.Ev.KV)
 				if !seen[k] {
 					seen[k] = true
 					out = append(out, e.Ev)
@@ -257,4 +257,17 @@ func wordString(w []*Event) string {
 		parts[i] = e.String()
 	}
 	return strings.Join(parts, " ; ")
+}
+
+func kvString(kv map[string]string) string {
+	keys := make([]string, 0, len(kv))
+	for k := range kv {
+		keys = append(keys, k)
+	}
+	sort.Strings(keys)
+	var sb strings.Builder
+	for _, k := range keys {
+		sb.WriteString(k + "=" + kv[k] + ";")
+	}
+	return sb.String()
 }
